@@ -13,7 +13,7 @@ RULE = ('lines generated from the grammar SSH-<d>.<d+>-<token>[ <comments>] (tok
         'Banner.parse / Software.parse, end-to-end cases deliver 0..6 header lines then the banner from a scripted peer (CRLF or LF; in one write, cut in two inside the banner or a header line, or in 1-7 byte segments) and read the text and JSON report; '
         'a case is non-trivial when at least one generated line was parsed and every part (protocol, software, comments, flag, round trip) was compared; '
         'distinct = distinct batch / peer specifications')
-REQUIRED = {'lines_parsed': 5000, 'injected_lines': 500, 'product_lines': 300, 'e2e_runs': 20, 'e2e_with_header': 5, 'e2e_cut_inside_a_line': 10, 'e2e_header_then_cut_banner': 4}
+REQUIRED = {'lines_parsed': 5000, 'injected_lines': 500, 'product_lines': 300, 'e2e_runs': 20, 'e2e_long_header_lines': 8, 'e2e_with_header': 5, 'e2e_cut_inside_a_line': 10, 'e2e_header_then_cut_banner': 4}
 ASSUMPTIONS = ['comments are compared after collapsing whitespace runs to one space (the normalisation the tool documents)',
                'each character outside 32..126 is expected to be shown as one replacement character; a multi-byte UTF-8 sequence or an undecodable byte counts as one character',
                'end-to-end delivery is one TCP segment smaller than the tool\'s 2048-byte read (segmentation is C09\'s subject)']
@@ -82,6 +82,10 @@ def cases(tier, seed):
     ne = 64 if tier == 'quick' else 1200
     for i in range(ne):
         cs.append({'kind': 'e2e', 'seed': rng.randrange(1 << 30), 'json': i % 3 == 2, 'headers': i % 7, 'eol': '\n' if i % 5 == 4 else '\r\n', 'inject': i % 4 == 3, 'product': i % 2 == 0, 'cut': ['none', 'in-banner', 'in-header', 'bytewise'][(i // 2) % 4]})
+    # one very long line before the banner (lengths around powers of two), half of them ending in something that looks like an identification string
+    longs = [2047, 2048, 2049, 4095, 4096, 4097, 8191, 8192, 8193, 20000] if tier == 'quick' else list(range(2040, 2056)) + list(range(4088, 4104)) + list(range(8184, 8200)) + [16384, 20000, 65536, 70000]
+    for i, L in enumerate(longs):
+        cs.append({'kind': 'e2e', 'seed': rng.randrange(1 << 30), 'json': i % 3 == 2, 'headers': i % 2, 'eol': '\r\n', 'inject': False, 'product': True, 'cut': 'none', 'long_header': L, 'banner_like_tail': i % 2 == 0})
     return cs
 
 
@@ -148,8 +152,11 @@ def run_e2e(c):
         script['faults'] = [{'conn': '*', 'at': 'banner', 'op': 'split', 'offset': rng.randint(1, head_len - 1), 'pause': 0.25}]
     elif cut == 'bytewise':
         script['faults'] = [{'conn': 0, 'at': 'banner', 'op': 'segment', 'n': rng.choice([1, 3, 7]), 'delay': 0.004}]
+    if c.get('long_header'):
+        pre.append('x' * c['long_header'] + ('SSH-2.0-OpenSSH_5.3' if c['banner_like_tail'] else ' y'))
+        script['pre'] = pre
     total = sum(len(wire.nb(x)) + 2 for x in pre) + len(wire.nb(line)) + 2
-    if total > 1900:
+    if total > 1900 and not c.get('long_header'):
         return [], {'e2e_skipped_long': 1}
     args = ['-j'] if c['json'] else ['-n']
     r, p = audit.audit_server(script, args)
@@ -173,7 +180,13 @@ def run_e2e(c):
         if ('(gen) banner: ' + rendered) not in r.out.split('\n'):
             viol.append(_v('C16/e2e-banner-line', 'banner line differs from what was sent (sanitised)', line=line, got=rep.gen_value('banner'), want=rendered))
         heads = [h.rstrip() for h in pre if h.strip()]
-        if heads:
+        if heads and c.get('long_header'):
+            # a very long line may legitimately be shown in pieces: what is demanded is that the header text, in order, is what was sent (and, above, that the banner is the real one)
+            m = re.search(r'^\(gen\) header: (.*?)^\(gen\) banner: ', r.out, re.S | re.M)
+            got = re.sub(r'\s+', '', m.group(1)) if m else None
+            if got != re.sub(r'\s+', '', ''.join(heads)):
+                viol.append(_v('C16/e2e-header:long-line', 'the text before the banner is not reported as header text', sent_lengths=[len(h) for h in heads], got_length=len(got) if got is not None else None))
+        elif heads:
             # exactly these lines, once, and then the banner line (a header reported twice would still contain the block)
             block = '(gen) header: ' + '\n'.join(heads) + '\n(gen) banner: '
             if block not in r.out:
@@ -187,7 +200,7 @@ def run_e2e(c):
             swl = rep.gen_value('software')
             if swl is None or (exp['product'] + ' ' + exp['version']) not in swl:  # a vendor name may precede the product
                 viol.append(_v('C16/e2e-software:' + exp['product'], 'software line does not carry product and version', line=line, got=swl))
-    return viol, {'e2e_runs': 1, 'e2e_with_header': 1 if pre else 0, 'e2e_cut_inside_a_line': 1 if p.count('fault') else 0, 'e2e_header_then_cut_banner': 1 if pre and cut == 'in-banner' and p.count('fault') else 0}
+    return viol, {'e2e_runs': 1, 'e2e_long_header_lines': 1 if c.get('long_header') else 0, 'e2e_with_header': 1 if pre else 0, 'e2e_cut_inside_a_line': 1 if p.count('fault') else 0, 'e2e_header_then_cut_banner': 1 if pre and cut == 'in-banner' and p.count('fault') else 0}
 
 
 def run_case(c):
